@@ -42,10 +42,30 @@ type History struct {
 	ExtChild bool `json:"ext_child,omitempty"`
 	Indep    int  `json:"independent,omitempty"`
 	Child    bool `json:"child_of_t1,omitempty"`
+	// AR selects the answer alphabet of the rebroadcast positions: "" = the
+	// six answer classes, "accept" = accept only, "raw" = the raw answer Raw.
+	AR string `json:"alphabet_resend,omitempty"`
+	// Kind != "": the fake backend's BackEnd() says Kind (btcd | bitcoind |
+	// neutrino) for the whole history and every rebroadcast hand-over is
+	// HELD by the backend until the rest of the wallet is quiescent, so that
+	// concurrent hand-overs are observed deterministically.
+	Kind string `json:"backend,omitempty"`
+	// Client/Raw: end-to-end "raw backend answer" history. The backend is of
+	// the kind of the real client Client, its error mapping is that
+	// client's real MapRPCErr, and the alphabets "raw" consist of the raw
+	// error of the curated case Raw.
+	Client string `json:"client,omitempty"`
+	Raw    string `json:"raw,omitempty"`
 }
 
 func (h History) String() string {
 	var p []string
+	if h.Kind != "" {
+		p = append(p, "backend="+h.Kind+"(held hand-overs)")
+	}
+	if h.Client != "" {
+		p = append(p, "client="+h.Client+" raw="+h.Raw)
+	}
 	p = append(p, fmt.Sprintf("fund(%d)", h.Coins))
 	if h.Lease {
 		p = append(p, "lease(F2)")
@@ -112,6 +132,13 @@ type Result struct {
 	Syncs    int
 	BalSkips int
 	Viol     *violation
+	// backend-kind family / raw answers
+	KindSyncs    map[string]int // resynchronisations with >= 2 unconfirmed transactions incl. a parent/child pair, per backend kind
+	Held         int            // hand-overs held until quiescence
+	Overlaps     int            // hand-overs started while another one was in progress
+	PairsHeld    int            // parent/child pairs whose hand-overs were compared under hold
+	HoldTimeouts int
+	RawE2E       map[string]int // raw answers driven through the wallet: "client|case|initial/resend" -> n
 }
 
 type exec struct {
@@ -131,6 +158,7 @@ type exec struct {
 	failed bool
 	dirty  bool     // a wallet operation ran since the last quiescence wait
 	order  []string // names of the wallet's sends in the order of their first hand-over
+	raw    *Answer  // the raw answer of a raw-answer history
 }
 
 var scope84 = waddrmgr.KeyScopeBIP0084
@@ -363,7 +391,8 @@ func count(l []chainhash.Hash, h chainhash.Hash) int {
 // runExec performs one execution of history h with the given choice prefix
 // (missing choices default to 0 = accept).
 func runExec(al *alphabets, h History, choices []int, simID int) (res *Result) {
-	res = &Result{History: h, States: map[string]bool{}, Classes: map[string]int{}, EPs: map[string]int{}}
+	res = &Result{History: h, States: map[string]bool{}, Classes: map[string]int{}, EPs: map[string]int{},
+		KindSyncs: map[string]int{}, RawE2E: map[string]int{}}
 	x := &exec{al: al, h: h, in: choices, res: res, names: map[chainhash.Hash]string{},
 		txs: map[string]*wire.MsgTx{}, pre: map[string]*Obs{}}
 	wd := time.AfterFunc(60*time.Second, func() {
@@ -394,9 +423,67 @@ func runExec(al *alphabets, h History, choices []int, simID int) (res *Result) {
 			}
 		}
 	}()
+	if err := x.configureBackend(); err != nil {
+		ev.Fatal("%v (%s)", err, h)
+	}
+	defer func() { wsim.NewBackendHook = nil }()
 	x.run(simID)
 	clean = true
 	return res
+}
+
+// configureBackend installs the backend kind and the real error mapping of
+// the history for every backend its Sim creates (Attach makes a new one at
+// every restart).
+func (x *exec) configureBackend() error {
+	wsim.NewBackendHook = nil
+	kind := x.h.Kind
+	var mapper func(error) error
+	if x.h.Client != "" {
+		cl := clientByID(x.h.Client)
+		if cl == nil {
+			return fmt.Errorf("real client %q cannot be built", x.h.Client)
+		}
+		a, err := rawAnswer(x.h.Client, x.h.Raw)
+		if err != nil {
+			return err
+		}
+		x.raw = &a
+		kind, mapper = cl.BackEnd, cl.Map
+	}
+	if kind == "" {
+		return nil
+	}
+	wsim.NewBackendHook = func(b *wsim.Backend) {
+		b.Kind = kind
+		b.Mapper = mapper
+	}
+	return nil
+}
+
+// initialAl / resendAl give the alphabets of a history's choice points.
+func initialAl(al *alphabets, h History, which int, raw *Answer) []Answer {
+	name, ep := h.A1, h.EP1
+	if which == 2 {
+		name, ep = h.A2, h.EP2
+	}
+	switch name {
+	case "accept":
+		return al.accept
+	case "raw":
+		return []Answer{*raw}
+	}
+	return al.initial(name, ep)
+}
+
+func resendAl(al *alphabets, h History, raw *Answer) []Answer {
+	switch h.AR {
+	case "accept":
+		return al.accept
+	case "raw":
+		return []Answer{*raw}
+	}
+	return al.resend
 }
 
 func (x *exec) run(simID int) {
@@ -457,7 +544,7 @@ func (x *exec) run(simID int) {
 		x.runIndep()
 		return
 	}
-	x.broadcast(1, x.h.EP1, x.al.initial(x.h.A1, x.h.EP1))
+	x.broadcast(1, x.h.EP1, initialAl(x.al, x.h, 1, x.raw))
 	if x.failed {
 		return
 	}
@@ -471,7 +558,7 @@ func (x *exec) run(simID int) {
 		}
 	}
 	if x.h.EP2 != "" {
-		x.broadcast(2, x.h.EP2, x.al.initial(x.h.A2, x.h.EP2))
+		x.broadcast(2, x.h.EP2, initialAl(x.al, x.h, 2, x.raw))
 		if x.failed {
 			return
 		}
@@ -639,6 +726,9 @@ func (x *exec) broadcastSpec(sp sendSpec) {
 	}
 	x.res.EPs[ep]++
 	x.res.Ops++
+	if x.raw != nil && a.Name == x.raw.Name {
+		x.res.RawE2E[x.h.Client+"|"+x.h.Raw+"|initial:"+ep]++
+	}
 
 	var tx *wire.MsgTx
 	var callErr error
@@ -843,8 +933,13 @@ func (x *exec) resync(kind string) {
 	pre := x.observe()
 	U := x.unminedTxs()
 	var answers []Answer
+	ral := resendAl(x.al, x.h, x.raw)
 	for i := 0; i < len(U); i++ {
-		answers = append(answers, x.choose(x.al.resend, fmt.Sprintf("%s:resend#%d", kind, i+1)))
+		a := x.choose(ral, fmt.Sprintf("%s:resend#%d", kind, i+1))
+		answers = append(answers, a)
+		if x.raw != nil && a.Name == x.raw.Name {
+			x.res.RawE2E[x.h.Client+"|"+x.h.Raw+"|resend:"+kind]++
+		}
 	}
 	var script []error
 	for _, a := range answers {
@@ -852,9 +947,17 @@ func (x *exec) resync(kind string) {
 	}
 	s.BE.SendAnswers = script
 	base := len(s.BE.Sent)
+	held := x.h.Kind != ""
+	s.BE.HoldSends = held
+	ht0 := s.BE.HoldTimeouts
 	s.FinishRescans()
+	s.BE.HoldSends = false
 	x.dirty = false
 	s.BE.SendAnswers = nil
+	if got := s.BE.BackEnd(); x.h.Kind != "" && got != x.h.Kind {
+		ev.Fatal("backend kind is %q, wanted %q (%s)", got, x.h.Kind, x.h)
+	}
+	x.res.HoldTimeouts += s.BE.HoldTimeouts - ht0
 	if kind == "restart" {
 		if err := s.Unlock(); err != nil {
 			ev.Fatal("Unlock: %v", err)
@@ -906,14 +1009,53 @@ func (x *exec) resync(kind string) {
 		}
 		return l
 	}
+	pairs := 0
 	for _, t := range sent {
 		for _, p := range parents(t) {
+			pairs++
 			if pp, ok := pos[p]; ok && pp > pos[t.TxHash()] {
 				x.fail("resend:child-before-parent", "%s: %s offered before its parent %s: %v",
 					kind, x.txName(t.TxHash()), x.txName(p), sn)
 				return
 			}
 		}
+	}
+	if held {
+		// hand-overs were held by the backend until the rest of the wallet
+		// was quiescent: a hand-over that starts while another one has not
+		// returned is visible in the backend's log whatever the scheduler did
+		calls := s.BE.Calls[base:]
+		for i, t := range sent {
+			x.res.Held++
+			if !calls[i].Held {
+				ev.Fatal("hand-over #%d was not held (%s)", i, x.h)
+			}
+			if len(calls[i].InFlight) > 0 {
+				x.res.Overlaps++
+			}
+			for _, p := range parents(t) {
+				pp, ok := pos[p]
+				if !ok {
+					continue
+				}
+				x.res.PairsHeld++
+				x.res.Evals++
+				for _, f := range calls[i].InFlight {
+					if f == base+pp {
+						x.fail("resend:child-before-parent", "%s (backend %s): %s was handed to the backend while the hand-over of its parent %s was still in progress (SendRawTransaction for the parent had not returned): calls started in the order %v, in progress when %s started: call(s) %v",
+							kind, x.h.Kind, x.txName(t.TxHash()), x.txName(p), sn, x.txName(t.TxHash()), calls[i].InFlight)
+						return
+					}
+				}
+			}
+		}
+	}
+	if len(U) >= 2 && pairs > 0 {
+		k := x.h.Kind
+		if k == "" {
+			k = "btcd(not held)"
+		}
+		x.res.KindSyncs[k]++
 	}
 	// which transactions may the wallet have dropped because of an answer
 	// to an ancestor (their re-offer is left open by the statement)
